@@ -10,6 +10,34 @@ import (
 // ---------- C07: cancelling the context at any point stops the instance and leaks nothing ----------
 
 func genC07(d *Draw) Case {
+	// node kinds beyond tasks and gateways: listening catch events, an armed event-based gateway, boundary
+	// listeners; the cancellation lands while they wait (or after some of their events arrived)
+	if fam := d.N(5); fam >= 2 {
+		var inner Case
+		switch fam {
+		case 2:
+			inner = genC11(d)
+		case 3:
+			inner = genC06(d)
+		case 4:
+			inner = genC10(d)
+		}
+		c := inner.(*ProcCase)
+		c.Shutdown = true
+		c.CancelAt = 1 + d.N(60)
+		if d.N(5) == 4 {
+			c.CancelAt = 0
+		}
+		// drop a suffix of the event plan so that listeners are still waiting when the cancel comes
+		if n := len(c.Events); n > 0 {
+			c.Events = c.Events[:d.N(n+1)]
+		}
+		if c.Meta == nil {
+			c.Meta = map[string]int{}
+		}
+		c.Meta["c07family"] = fam
+		return c
+	}
 	opts := ProgOpts{Kinds: []string{"seq", "xor", "and", "or", "loop", "sub", "condtask"}, MaxDepth: 1 + d.N(2), MaxTasks: 2 + d.N(5), OrEarlyEnd: true}
 	var kinds []string
 	for _, k := range opts.Kinds {
@@ -180,6 +208,7 @@ func checkC07(cc Case, r *simrt.Result) *Outcome {
 	probe(o, "cancel-landed-mid-flight", cancelN > 0)
 	probe(o, "cancel-while-task-pending", cancelN > 0 && pendingAtCancel > 0)
 	probe(o, "cancel-after-rest", cancelN == 0)
+	probe(o, "event-nodes-present", c.Meta["c07family"] >= 2)
 	probe(o, "task-trace-raced-cancel", lateTask > 0)
 	if cancelN > 0 {
 		c.env.fault("cancel-mid-flight")
